@@ -13,6 +13,9 @@ BINARY = "add subtract multiply divide true_divide power maximum minimum arctan2
 ZERO_AT_TIE = {"abs", "absolute", "maximum", "minimum", "arcsin", "arccos", "arccsc", "arcsec", "clip"}
 
 
+REF_POW = "out = np.power(x, p)"
+
+
 def C(name, body, leaves, **kw):
     d = dict(name=name, body=body, leaves=[list(x) for x in leaves])
     d.update(kw)
@@ -68,6 +71,11 @@ def cases(tier):
     for e in ("2", "3", "-1", "0.5", "1", "0", "-2", "1.5"):
         cs.append(C("b/power/x**%s" % e, "out = x ** %s" % e, [("x", (2,))]))
     cs.append(C("b/power/2**x", "out = 2.0 ** x", [("x", (2,))]))
+    # tensor exponents: the equality tests of the `** 1` / `** 2` shortcuts are decision points, and the function is smooth there
+    cs.append(C("b/power/x**p0d", "out = x ** p", [("x", (2,)), ("p", ())], assume="gt(x, 0)", smooth_at_ties=True, ref_body=REF_POW))
+    cs.append(C("b/power/x**p1d", "out = x ** p", [("x", (2,)), ("p", (2,))], assume="gt(x, 0)", smooth_at_ties=True, ref_body=REF_POW))
+    cs.append(C("b/power/x0d**p0d", "out = x ** p", [("x", ()), ("p", ())], assume="gt(x, 0)", smooth_at_ties=True, ref_body=REF_POW))
+    cs.append(C("b/power/mg.power(x,p0d)", "out = mg.power(x, p)", [("x", (2,)), ("p", ())], assume="gt(x, 0)", smooth_at_ties=True, ref_body=REF_POW))
     cs.append(C("b/rsub", "out = 3.0 - x", [("x", (2,))]))
     cs.append(C("b/rdiv", "out = 3.0 / x", [("x", (2,))]))
     # ------------------------------------------------------------------ sequential
